@@ -24,7 +24,7 @@ import (
 // identifier from the echo request captured on the connection and injects the
 // scripted frames through Session.Parse.
 
-const c19Rule = "batches of concurrent scenarios; a scenario = 1..8 concurrent Ping/Ping6 calls, each with a script: matching reply at once | matching reply twice (replies carried in IP headers with DF, options, TOS/identification, traffic class/flow label, with 0 / 5 / 1000 bytes of echo data) | reply with a foreign identifier | echo REQUEST with the ping's identifier | another ICMP type (incl. the other family's reply type) with the identifier at the same offset | truncated ICMP (Parse error) | matching reply 400 ms later (while other pings of the scenario time out) | matching reply only after the time-out | nothing | send failure (wrong address family). oracle: nil <=> a matching reply was injected before the deadline (1 s time-outs for the positive scripts, 200 ms for the negative ones, and the arguments 0 and 11 s that are documented to mean 2 s; only lower bounds on latency); identifiers distinct; no waiter left once every call has returned; sub-check wraparound: the 16-bit identifier counter is driven to 65534, then six pings are pending at the same time across the wrap-around (distinct identifiers, each completed by its own reply). non-trivial = scenario with >= 2 concurrent pings and >= 1 non-matching reply; distinct by hash of the scenario"
+const c19Rule = "batches of concurrent scenarios; a scenario = 1..8 concurrent Ping/Ping6 calls, each with a script: matching reply at once | matching reply twice (replies carried in IP headers with DF, options, TOS/identification, traffic class/flow label, with 0 / 5 / 1000 bytes of echo data, with the request's sequence number or with 0 / 0xfffe) | reply with a foreign identifier | echo REQUEST with the ping's identifier | another ICMP type (incl. the other family's reply type) with the identifier at the same offset | truncated ICMP (Parse error) | matching reply 400 ms later (while other pings of the scenario time out) | matching reply only after the time-out | nothing | send failure (wrong address family). oracle: nil <=> a matching reply was injected before the deadline (1 s time-outs for the positive scripts, 200 ms for the negative ones, and the arguments 0 and 11 s that are documented to mean 2 s; only lower bounds on latency); identifiers distinct; no waiter left once every call has returned; sub-check wraparound: the 16-bit identifier counter is driven to 65534, then six pings are pending at the same time across the wrap-around (distinct identifiers, each completed by its own reply). non-trivial = scenario with >= 2 concurrent pings and >= 1 non-matching reply; distinct by hash of the scenario"
 
 type c19Ping struct {
 	V6     bool   `json:"v6"`
@@ -396,12 +396,17 @@ func indexByte(s string, c byte) int {
 var c19OtherTypes = map[bool][]byte{false: {129, 128, 13, 14, 17, 18}, true: {0, 8, 1, 3, 4, 127}}
 
 // c19Frame is echoFrame with a legitimate variation of the carrying header or of the echo data:
-// 1 DF set, 2 IPv4 options (IHL 24) / IPv6 traffic class + flow label, 3 TOS + identification, 4 no echo data, 5 1000 bytes of echo data, 6 DF + options
+// 1 DF set, 2 IPv4 options (IHL 24) / IPv6 traffic class + flow label, 3 TOS + identification, 4 no echo data, 5 1000 bytes of echo data, 6 DF + options,
+// 7 sequence number 0 instead of the request's, 8 sequence number 0xfffe
 func c19Frame(w gen.World, v6 bool, typ byte, id uint16, hdr int) []byte {
 	var rest [4]byte
 	rest[0], rest[1], rest[3] = byte(id>>8), byte(id), 1
 	data := []byte("HELLO")
 	switch hdr {
+	case 7: // the station does not echo the sequence number (the statement keys completion on the identifier alone)
+		rest[2], rest[3] = 0, 0
+	case 8:
+		rest[2], rest[3] = 0xff, 0xfe
 	case 4:
 		data = nil
 	case 5:
@@ -443,7 +448,7 @@ func TestC19(t *testing.T) {
 				if rapid.IntRange(0, 19).Draw(t, "bad") == 0 {
 					script = "badfamily"
 				}
-				sc.Pings = append(sc.Pings, c19Ping{V6: rapid.Bool().Draw(t, "v6"), Script: script, Hdr: rapid.SampledFrom([]int{0, 0, 1, 2, 3, 4, 5, 6}).Draw(t, "hdr"), Alt: rapid.IntRange(0, 5).Draw(t, "alt"), TO: rapid.SampledFrom([]int{0, 0, 0, 0, 1, 2}).Draw(t, "to")})
+				sc.Pings = append(sc.Pings, c19Ping{V6: rapid.Bool().Draw(t, "v6"), Script: script, Hdr: rapid.SampledFrom([]int{0, 0, 1, 2, 3, 4, 5, 6, 7, 8}).Draw(t, "hdr"), Alt: rapid.IntRange(0, 5).Draw(t, "alt"), TO: rapid.SampledFrom([]int{0, 0, 0, 0, 1, 2}).Draw(t, "to")})
 			}
 			b.Scenarios = append(b.Scenarios, sc)
 		}
